@@ -265,7 +265,7 @@ func runC12(p *an.Prog, r *an.Run, tier string) {
 		var app *ssa.Call
 		for _, fn := range an.WithAnon(m) {
 			for _, c := range an.Calls(fn, false) {
-				if b, ok := c.Common().Value.(*ssa.Builtin); ok && b.Name() == "append" {
+				if b, ok := c.Common().Value.(*ssa.Builtin); ok && an.Ident(b.Name()) == "append" {
 					if sl, ok := c.Common().Args[0].Type().Underlying().(*types.Slice); ok && isNamedType(sl.Elem(), "Node") {
 						app, _ = c.(*ssa.Call)
 					}
@@ -373,7 +373,7 @@ func freshDecodeViolations(p *an.Prog, want func(*ssa.Function) bool) ([]string,
 				continue
 			}
 			v := underlyingConcrete(target)
-			if fn.Parent() != nil && fn.Parent().Name() == "loopItem" {
+			if fn.Parent() != nil && an.Ident(fn.Parent().Name()) == "loopItem" {
 				// loopItem decodes every record into its caller's single target: it must reset it first
 				okReset := false
 				for _, cc := range an.Calls(fn, false) {
@@ -394,14 +394,14 @@ func freshDecodeViolations(p *an.Prog, want func(*ssa.Function) bool) ([]string,
 			root, path := an.RootPath(v)
 			// targets handed in by the caller are the caller's obligation (getItem, loopItem)
 			if _, isPrm := root.(*ssa.Parameter); isPrm {
-				if fn.Name() == "loopItem" || (fn.Parent() != nil && fn.Parent().Name() == "loopItem") {
+				if an.Ident(fn.Name()) == "loopItem" || (fn.Parent() != nil && an.Ident(fn.Parent().Name()) == "loopItem") {
 					continue
 				}
 				continue
 			}
 			if fv, isFV := root.(*ssa.FreeVar); isFV {
 				// closure view of a local or of a parameter
-				if fn.Parent() != nil && fn.Parent().Name() == "loopItem" {
+				if fn.Parent() != nil && an.Ident(fn.Parent().Name()) == "loopItem" {
 					// loopItem resets its target with reflect.Zero before decoding: require that call
 					okReset := false
 					for _, cc := range an.Calls(fn, false) {
